@@ -105,9 +105,8 @@ Definition k_const_t (l : layout) (i : init) (paths : list (list Z)) : list Z :=
   end.
 Definition k_view_t (l : layout) (tv : Z) (paths : list (list Z)) : list Z :=
   flat_map (fun p => enct tagv (view_path l tv p)) paths.
-(* Signal(layout, init=...) also formats the layout (TypeError for a signed enumeration with a view class) *)
-Definition k_siginit_f (l : layout) (i : xinit) (paths : list (list Z)) : list Z :=
-  if format_ok l then k_siginit l i paths else [0; 4].
+(* Signal(layout, init=...) also formats the layout (every layout formats) *)
+Definition k_siginit_f (l : layout) (i : xinit) (paths : list (list Z)) : list Z := k_siginit l i paths.
 
 (* FlagView operator with an operand that is neither a FlagView nor a member of the same class: TypeError *)
 Definition k_flag_fvbad : list Z := [3].
